@@ -225,15 +225,22 @@ impl NoGoodStore {
                 DuplicateElemination::None => true,
                 DuplicateElemination::Equiv => !self.store[idx].contains(&nogood),
                 DuplicateElemination::Subsume => {
-                    self.store
-                        .iter_mut()
-                        .enumerate()
-                        .for_each(|(cur_idx, ng_vec)| {
-                            if idx >= cur_idx {
-                                ng_vec.retain(|ng| !ng.is_violating(&nogood));
-                            }
-                        });
-                    true
+                    // the new nogood is subsumed if a stored nogood (of at most the same size) is part of it
+                    if self
+                        .store
+                        .iter()
+                        .take(idx + 1)
+                        .any(|ng_vec| ng_vec.iter().any(|ng| ng.is_violating(&nogood)))
+                    {
+                        false
+                    } else {
+                        // stored nogoods which contain the new one are subsumed by it
+                        self.store
+                            .iter_mut()
+                            .skip(idx)
+                            .for_each(|ng_vec| ng_vec.retain(|ng| !nogood.is_violating(ng)));
+                        true
+                    }
                 }
             } {
                 self.store[idx].push(nogood);
